@@ -37,7 +37,10 @@ NUMERIC = (f"""(define (domain n1)
 (:action xfer :parameters (?x - t1 ?y - t1)
   :precondition (and (>= (g ?x) 1))
   :effect (and (decrease (g ?x) 1) (increase (h ?x ?y) 1) (assign (f) (* (g ?y) -1))))
-(:action tick :parameters () :precondition (and) :effect (and (increase (f) 0.00001))))
+(:action tick :parameters () :precondition (and) :effect (and (increase (f) 0.00001)))
+(:action swap :parameters (?x - t1 ?y - t1)
+  :precondition (and (not (= ?x ?y)))
+  :effect (and (assign (g ?x) (g ?y)) (when (on ?x) (assign (g ?y) (g ?x))))))
 """, """(define (problem n1p) (:domain n1)
 (:objects a b - t1)
 (:init (= (f) -2) (= (g a) 0) (= (g b) 1.5) (= (h a a) 0) (= (h a b) 0) (= (h b a) 0.25) (= (h b b) 0))
